@@ -588,7 +588,7 @@ fn main() {
          group, sender key, recipient key, version, topic, other key). Mutated encodings that do not decode count as failing; \
          ones decoding to the same value are discarded. non-trivial = distinct sealing whose positive check passed",
     )
-    .min(args.n(250, 2500))
+    .min(args.n(600, 12_000))
     .require("groupkey_roundtrips", "group key messages")
     .require("sealed_groupkey_roundtrips", "sealed group keys")
     .require("sealed_pskseed_roundtrips", "sealed PSK seeds")
@@ -616,7 +616,7 @@ fn main() {
         finish_all(&args, vec![m]);
     }
 
-    let rounds = args.n(400, 6000);
+    let rounds = args.n(600, 12_000);
     let cap = args.tier.pick(70.0, 800.0);
     let np = PRIMS.len() as u64;
     run_sharded(&args, &mut m, rounds * np, cap, |m, k| {
